@@ -198,7 +198,12 @@ def install(m):
     L['poll_ready'] = poll_ready
 
     def svc_call(m, a, c, rt):
-        return deref(m, a[0]).call(m, a[1])
+        f = deref(m, a[0])
+        if isinstance(f, (Closure, FnItem)):
+            # Fn::call / FnMut::call_mut on a closure held in a local: the argument is the tuple of parameters
+            args = a[1].fields if isinstance(a[1], Tuple) else [a[1]]
+            return m.call_value(a[0] if isinstance(a[0], (Closure, FnItem)) else f, list(args))
+        return f.call(m, a[1])
     L['Service::call'] = svc_call
     L['call'] = svc_call
 
